@@ -1355,7 +1355,7 @@ impl StorageEngine {
                         *list = new_list;
                     } else {
                         let mut new_list = VecDeque::new();
-                        let mut to_remove = (-count) as usize;
+                        let mut to_remove = count.unsigned_abs() as usize;
                         
                         for item in list.drain(..).rev() {
                             if item == element && to_remove > 0 {
